@@ -20,7 +20,7 @@ ASSUMPTIONS = [
     "states after a failed exec token are not compared (the statement only fixes the reported error)",
 ]
 TIERS = {
-    "quick": {"cases": 5000, "flavours": ("asan",), "cap_s": 600},
+    "quick": {"cases": 7000, "flavours": ("asan",), "cap_s": 600},
     "thorough": {"cases": 250000, "flavours": ("asan",), "cap_s": 3 * 3600},
 }
 SHRINK_LISTS = ["tokens", "stack"]
